@@ -408,9 +408,10 @@ fn check_doc(doc: &Doc, c: &Cfg) -> Vec<Viol> {
 
 // ---- control wrappers -------------------------------------------------------------------------
 
-const REL_FIELDS: [&str; 12] = [
-    "Build-Depends", "Build-Depends-Indep", "Build-Depends-Arch", "Build-Conflicts", "Build-Conflicts-Indep", "Depends", "Recommends", "Suggests",
-    "Enhances", "Pre-Depends", "Breaks", "Build-Conflics-Arch",
+/// Policy 7.1 / 5.6.10 (written from Policy, not from the implementation's list)
+const REL_FIELDS: [&str; 16] = [
+    "Build-Depends", "Build-Depends-Indep", "Build-Depends-Arch", "Build-Conflicts", "Build-Conflicts-Indep", "Build-Conflicts-Arch", "Pre-Depends", "Depends",
+    "Recommends", "Suggests", "Enhances", "Breaks", "Conflicts", "Provides", "Replaces", "Built-Using",
 ];
 
 fn squash(s: &str) -> String {
